@@ -115,3 +115,24 @@ func (v *VerifMonitor) Namespaces() []string {
 	sort.Strings(out)
 	return out
 }
+
+// VerifBufferedEvents reports how many events the monitor's informers hold back and whether all of them are
+// enabled, without resetting anything (unlike Snapshot, which is a reader of the buffer protocol).
+func VerifBufferedEvents(mon Monitor) (int, bool) {
+	m, ok := mon.(*monitor)
+	if !ok {
+		return -1, false
+	}
+	n, en := 0, true
+	count := func(infs []*resourceInformer) {
+		for _, i := range infs {
+			i.eventBufLock.Lock()
+			n += len(i.eventBuf)
+			en = en && i.eventCbEnabled
+			i.eventBufLock.Unlock()
+		}
+	}
+	count(m.ResourceInformers)
+	m.VaryingInformers.RangeValue(count)
+	return n, en
+}
